@@ -26,3 +26,11 @@ add('C12', 'Hypothesis-generated spectrum/orientation/magnitude classes, single 
     'mpmath and numpy/scipy are trusted references; tolerances 1e-10 (identities, times condition number), 1e-8 (derivatives), 1e-7 for logm_iss '
     '(its stated accuracy in the upstream tests); tensors with internal dynamic range above 1e100 and subnormal magnitudes are excluded; '
     'known finding D1 covers only failures of compiled evaluation that the op-by-op evaluation of the same routine does not show.')
+add('C16', 'Hypothesis-generated segments, query-point classes, facing segment pairs in overlap classes, rigid motions, meshes with displacement fields vs plane/corner/circle obstacles; validity-predicate, metamorphic and reference-value oracles',
+    'Generated search: closest-point projection against a checker-side clamped projection and sampled segment points; signed distance magnitude/sign; '
+    'mortar integrals for both normal rules and six integrands under rigid motions (metamorphic), exact zero without overlap, non-negativity, overlap length '
+    'and gap area for parallel pairs within the smoothing length; nodal areas on facing polylines; penalty energy and level-set constraints against the obstacle '
+    'function at checker-computed deformed Gauss points. Sampling only.',
+    'Pairs face each other (anti-parallel within 60 degrees) as the contact search delivers them; distance accuracy is absolute (1e-12 of segment length plus '
+    '16 ulp of the coordinates); the sign of the distance is not asserted for points on the line within rounding; mortar claims for tilted pairs are limited to '
+    'invariance, non-negativity and vanishing without overlap.')
